@@ -8,9 +8,30 @@
     [started tr a] is a function of the history: the numbers of the OnStartTrace
     event of actor a.  All statements quantify over EVERY label sequence.
 
-    The liveness half of the property on the real interpreter depends on the
-    GIL / OS scheduler: it is proved here for the model (no shared blocking
-    resource) and measured on the real code by harness/props/c06.py. *)
+    WHAT RESTS ON WHAT -- read this before citing the theorems.
+    * Numbering and attribution (C06_trace_no_injective,
+      C06_trace_numbers_sequential, C06_thread_task_pair_identifies,
+      C06_numbers_stable, C06_attribution, C06_end_attribution) are invariants
+      proved over every interleaving of the counter calls of Ids/Model.v, whose
+      every transition is compared with the real code on each run.
+    * Independence (C06_independent, C06_independent_of_blocked_trace,
+      C06_answer_is_delivered) is TRUE BY CONSTRUCTION of Prompt/Model.v: the
+      model has one unbounded queue per trace and no lock, so no label of one
+      trace can be disabled by another trace.  These theorems only document
+      that modelling decision (the command path itself -- queue_in, relay
+      thread, per-trace queues -- has no shared blocking resource); they say
+      nothing about resources OUTSIDE that path.  A lock taken around the
+      trace-function dispatch (seeded change C06-2), the GIL, or a blocking
+      call in a plugin are invisible to them.
+    * The independence clause of the property ("a prompt left unanswered in one
+      trace never prevents other threads from running, being prompted and being
+      answered") therefore rests on the RUNS of harness/props/c06.py against the
+      real code, not on a theorem: the victim scenarios (a prompt at a
+      call / return / exception / line event is withheld; every unit that never
+      waits for the victim, already running or started afterwards, must run to
+      its end) and the withholding responder of the generated programs.  That
+      is evidence for the generated programs and switch intervals only; the
+      clause is labelled partial. *)
 From NL Require Import Ids.Model Ids.Inv.
 From NL Require Prompt.Model Prompt.Hist Prompt.Indep.
 Open Scope Z_scope.
